@@ -76,16 +76,10 @@ def finite_case(case):
     return all(math.isfinite(fv(v)) for v in case["xs"] + case["ys"])
 
 
-def pow2_overflows(tol):
-    try:
-        float(tol) ** 2
-        return False
-    except OverflowError:
-        return True
+HUGE_TOLS = [1e154, 1.3407807929942597e154, 1.4e154, 1e200, 1e308, 1.7976931348623157e308]   # eps*eps is infinite from 1.3407807929942597e154 on
 
 
 FINDING_AIRE = "vw-user-feature-named-aire"
-FINDING_TOL_OVERFLOW = "vw-tolerance-square-overflow"
 ERRMAP = {"err:AnalyticalFeatureError": "err:AnalyticalFeatureError", "err:IndexError": "err:index",
           "err:NameError": "err:NameError", "err:RecursionError": "err:recursion", "err:KeyError": "err:key"}
 ALGO_OF_MODE = {"TV.Simplify.Algo.douglasPeucker": "douglas_peucker", "TV.Simplify.Algo.visvalingam": "visvalingam",
@@ -125,6 +119,7 @@ class P(Prop):
         (M, "TV.C16.vw_removeObs_is_C04", "composition with C04: output.removeObs(id) (TV.Seq.removeObs, the model of removeObsList([id]) used by the Track-level loop) is the eraseIdx of the list-level loop; the + of Douglas-Peucker uses C04's sameNames rule as it is"),
         (M, "TV.C16.simplify_dispatch", "simplify(track, tol, 1) is douglas_peucker, mode 2 is visvalingam, a mode outside 1..8 raises (NameError); modes 3..8 call other functions, outside the statement"),
         (M, "TV.C16.vw_sentinel_first_pass", "T6' (round 1's open statement, now proved): when no interior fix has an initial area below ARGMIN's initial minimum (+inf since 68863c7: the areas are inf or NaN), ARGMIN answers 0, NaN > eps is False, and the first pass removes the FIRST observation; any scalar type"),
+        (M, "TV.C16.vw_all_below", "T11: when no triangle of the track has an area > eps*eps (in particular eps*eps = +inf: every tolerance from 1.34e154 up to the largest double, since b704eae) Visvalingam returns exactly the first and the last observation; under T6's hypothesis, any scalar type"),
         (M, "TV.C16.vw_threshold", "T10 (threshold semantics, linear order): under T6's hypothesis every interior fix of Visvalingam's result spans with its two neighbours in the result a triangle of area > eps^2 (the '@aire' column stays consistent with the current neighbours; ARGMIN designates a smallest entry)"),
     ]
     partial = []
@@ -139,7 +134,7 @@ class P(Prop):
     ]
     modelled = ("util/geometry.py distance_to_segment (l == 0 branch, normalised scalar product, clamp to the segment's box), "
                 "triangle_area, aire_visval; algo/simplification.py douglas_peucker (n <= 2 base case, first farthest fix by strict >, "
-                "dmax < eps, split L[0:imax] / L[imax:n], recursion, concatenation) and visvalingam (eps **= 2, '@aire' column with NaN at "
+                "dmax < eps, split L[0:imax] / L[imax:n], recursion, concatenation) and visvalingam (eps = eps * eps -- b704eae; `eps **= 2` before --, '@aire' column with NaN at "
                 "both ends, Operator.ARGMIN with its initial minimum float('inf') (68863c7; 1e300 before), break on area > eps, removal, two neighbour updates). "
                 "On the Track object (Model/SimplifyTrack.lean): simplify(track, tolerance, mode, verbose) dispatch for every mode "
                 "(1, 2 modelled; 3 squaring and 4..8 optimalSimplification named, not modelled; others NameError); douglas_peucker's "
@@ -147,9 +142,7 @@ class P(Prop):
                 "rule for uid/tid/base and the feature dict (C04's sameNames); visvalingam's track.copy(), addAnalyticalFeature(aire_visval, '@aire') "
                 "(createAnalyticalFeature when new: column len(dico), 0.0; an empty track raises), setObsAnalyticalFeature('@aire', 0, nan), "
                 "the loop on that column of the feature rows (getObsAnalyticalFeature, C04's removeObs), removeAnalyticalFeature('@aire') with its index shift")
-    trusted = ["`eps **= 2` is modelled as eps*eps: the generators only emit tolerances with tol**2 == tol*tol in Python (a tolerance >= 1.35e154 makes "
-               "`eps **= 2` raise OverflowError: class vw-tolerance-square-overflow, generated once listed)",
-               "Track.copy is a deep copy (the model is functional: it cannot write its input; the harness compares a full snapshot of the input "
+    trusted = [               "Track.copy is a deep copy (the model is functional: it cannot write its input; the harness compares a full snapshot of the input "
                "track before and after every call: observations' identity, positions, times, feature rows, feature dict, uid/tid/base)",
                "z coordinates and timestamps are not in the model (the algorithms never read them); the harness checks they travel unchanged",
                "feature rows are as long as the feature dict says (C01's invariant)",
@@ -158,7 +151,7 @@ class P(Prop):
                "the harness generates tracks of at most 300 fixes)"]
     rule = ("[list-level streams] tracks of 1..9 fixes on integer lattices of side 2..6 (collinear runs, consecutive duplicates, revisited positions, closed loops "
             "forced with stated probabilities), quarter-step dyadic and 2-decimal float tracks; tolerances 1e-3..1e3 (ints and floats), random "
-            "3-digit tolerances and tolerances equal to the float distance of a fix to the chord (the dmax == eps boundary); every fix carries its "
+            "3-digit tolerances over 1e-6..1e6, tolerances far above any extent up to the largest double (1e154..1.797e308: eps*eps is infinite in Visvalingam) and tolerances equal to the float distance of a fix to the chord (the dmax == eps boundary); every fix carries its "
             "index as timestamp (and optionally a feature) so kept *observations* are identified; both through simplify(track, tol, mode) and the "
             "functions directly; all 3-fix (quick) / 3- and 4-fix (thorough) tracks on the 3x3 lattice are enumerated. distance_to_segment and "
             "triangle_area are also compared point-wise. "
@@ -250,10 +243,10 @@ class P(Prop):
             t = mirror_dist(float(xs[i]), float(ys[i]), float(xs[a]), float(ys[a]), float(xs[b]), float(ys[b]))
             if not t > 0:
                 t = rng.choice(TOLS)
-        else:
+        elif r < 0.97:
             t = float("%.3g" % (10 ** rng.uniform(-6, 6)))
-        if isinstance(t, float) and t ** 2 != t * t:       # keep `eps **= 2` == eps*eps (see trusted)
-            t = rng.choice(TOLS)
+        else:
+            t = rng.choice(HUGE_TOLS)                      # far above any extent, up to the largest double: eps*eps = inf in Visvalingam
         return t
 
     # ---- Track-object stream
@@ -392,12 +385,8 @@ class P(Prop):
                 c = self.rand_trk(rng)
                 if c["names"] and c["algo"] == "vw":
                     c["names"][rng.randrange(len(c["names"]))] = "@aire"
+                    c.pop("ts", None)                       # observations identified by their timestamp (the index), not by column 0
                     out.append(c)
-        if self.listed(FINDING_TOL_OVERFLOW):
-            for _ in range(100):
-                c = self.rand_trk(rng)
-                c["tol"] = rng.choice([1.5e154, 1e200, 1e308])
-                out.append(c)
         lat = [(x, y) for x in range(3) for y in range(3)]
         sizes = (3, 4) if tier == "thorough" else (3,)
         for n in sizes:
@@ -651,9 +640,6 @@ class P(Prop):
         return out
 
     def compare_trk(self, case, impl_out, model_out):
-        if case["algo"] == "vw" and pow2_overflows(case["tol"]):
-            # `eps **= 2` raises where the model's eps*eps is inf (class vw-tolerance-square-overflow, see trusted)
-            return None if impl_out.get("err") == "err:OverflowError" else "expected OverflowError from eps **= 2, got %s" % (impl_out,)
         if "err" in impl_out or "err" in model_out:
             if impl_out.get("err") == model_out.get("err"):
                 return None
@@ -782,7 +768,7 @@ class P(Prop):
             # error of the formula as long as tol is not tiny w.r.t. the coordinates) is within tol exactly; the others get the exact test
             quick = n > 12 and float(tol) > 1e-6 * scale
             Vf = [(float(xs[i]), float(ys[i])) for i in kept]
-            limf = float(tol) ** 2 * (1 - 1e-6)
+            limf = float(tol) * float(tol) * (1 - 1e-6)
             for i in range(n):
                 if quick:
                     pf = (float(xs[i]), float(ys[i]))
@@ -802,15 +788,12 @@ class P(Prop):
         of TV.C16.vw_sublist_ends; such coordinates are outside the oracle's domain (> 1e100) and only produced by the `wild` stream
         (correspondence).
         'vw-user-feature-named-aire': the input track has a feature called '@aire' (the name of Visvalingam's temporary column):
-        it is overwritten in the working copy and deleted from the result (example in Props/C16.lean; outside `FreshTable`).
-        'vw-tolerance-square-overflow': `eps **= 2` raises OverflowError for a tolerance >= 1.35e154."""
+        it is overwritten in the working copy and deleted from the result (example in Props/C16.lean; outside `FreshTable`)."""
         algo = case.get("algo") if case.get("kind") == "trk" else case.get("kind")
         if algo != "vw":
             return None
         if case.get("kind") == "trk" and "@aire" in case.get("names", []):
             return FINDING_AIRE
-        if pow2_overflows(case["tol"]):
-            return FINDING_TOL_OVERFLOW
         if not finite_case(case):
             return "vw-area-reaches-argmin-sentinel"
         if all(abs(fv(v)) <= 1e100 for v in case["xs"] + case["ys"]):
@@ -886,7 +869,7 @@ class P(Prop):
             return
         n = len(case["xs"])
         for t in (case["tol"] * 0.5, case["tol"] * 2, case["tol"] * 0.999, case["tol"] * 1.001, 1, 0.5):
-            if t ** 2 == t * t:
+            if math.isfinite(t):
                 yield dict(case, tol=t)
         if n == 0:
             return
